@@ -215,6 +215,42 @@ def _call_defining(body, du, op):
     return None
 
 
+def _link_helper_call(w, body, du, op):
+    """(block, call) when the operand is the `?`-payload of a call to a workspace helper that performs exactly one
+    read_exact into a 4-byte buffer and returns Ok(EntryLink::Stored(u32::from_le_bytes(buffer)))"""
+    hops = 0
+    while op is not None and op.kind in ("copy", "move") and hops < 10:
+        hops += 1
+        d = du.single(op.place.local)
+        if d is None:
+            return None
+        kind, bi, x = d
+        if kind == "stmt" and x.rv.kind == "use":
+            op = x.rv.ops[0]
+            continue
+        if kind == "call" and x.callee.indirect is None and x.callee.target_p().endswith("Try>::branch"):
+            op = x.args[0]
+            continue
+        if kind == "call" and x.callee.indirect is None:
+            g = w.fns.get(x.callee.target_id())
+            if g is None or g.body is None or g.crate.name != "zcash_history":
+                return None
+            gb = g.body
+            calls = [t for bb, t in gb.calls() if not gb.blocks[bb].cleanup and t.callee.indirect is None]
+            reads = [t for t in calls if codec.READ_EXACT.search(t.callee.target_p())]
+            ints = [t for t in calls if codec.INT_FROM.search(t.callee.target_p())]
+            stored = [st for blk in gb.blocks if not blk.cleanup for st in blk.stmts
+                      if st.kind == "=" and st.rv.kind == "agg" and st.rv.agg[0] == "adt" and st.rv.agg[2] == "Stored"]
+            bufs = [ty for ty, _n in gb.locals if ty == "[u8; 4]"]
+            if len(reads) == 1 and len(ints) == 1 and len(stored) == 1 and bufs and \
+                    codec.INT_FROM.search(ints[0].callee.target_p()).group(1) == "u32" and \
+                    codec.INT_FROM.search(ints[0].callee.target_p()).group(2) == "le":
+                return (bi, x)
+            return None
+        return None
+    return None
+
+
 def rule_entry(chk, w):
     try:
         wf, rf = w.fn(H + "entry::Entry::<V>::write"), w.fn(H + "entry::Entry::<V>::read")
@@ -282,6 +318,11 @@ def rule_entry(chk, w):
                             if all(calls) and all(codec.INT_FROM.search(c[1].callee.target_p())
                                                   for c in calls):
                                 rlinks_ok = before(rb, (calls[0][0], 0), (calls[1][0], 0))
+                            elif not any(calls):
+                                # ... or each link comes (through `?`) from a helper that reads one stored link
+                                hc = [_link_helper_call(w, rb, rdu, op) for op in s.rv.ops]
+                                if all(hc):
+                                    rlinks_ok = before(rb, (hc[0][0], 0), (hc[1][0], 0))
     if wtags and wtags == rtags and set(wtags) == set(names) and \
             len({x for v in wtags.values() for x in v}) == len(names) and \
             all(len(v) == 1 for v in wtags.values()):
@@ -1164,6 +1205,45 @@ FIELD_ACCESS = {
 }
 
 
+def _resolve_link_match(b, du):
+    """resolve_link written with an explicit match on the look-up result: the matched option is defined by the two
+    look-ups only, Some(node) builds Ok(IndexedNode{node, link: the parameter}) and nothing else is returned as Ok,
+    None returns Err(ExpectedInMemory(the parameter)); no defaulting call"""
+    import guards
+    if [t for _bb, t in b.calls() if not b.blocks[_bb].cleanup and t.callee.indirect is None and
+            re.search(r"unwrap_or|or_insert|or_default|::entry$", t.callee.target_p())]:
+        return False
+    nodes = [(bi, s) for bi, blk in enumerate(b.blocks) if not blk.cleanup for s in blk.stmts
+             if s.kind == "=" and s.rv.kind == "agg" and s.rv.agg[0] == "adt" and s.rv.agg[1].endswith("IndexedNode")]
+    errs = [(bi, s) for bi, blk in enumerate(b.blocks) if not blk.cleanup for s in blk.stmts
+            if s.kind == "=" and s.rv.kind == "agg" and s.rv.agg[0] == "adt" and s.rv.agg[2] == "ExpectedInMemory"]
+    if len(nodes) != 1 or len(errs) != 1:
+        return False
+    m = dict(zip(nodes[0][1].rv.agg[3], nodes[0][1].rv.ops))
+    no = defuse.strip_refs(du.origin(m["node"])) if "node" in m else None
+    lo = defuse.strip_refs(du.origin(m["link"])) if "link" in m else None
+    if not (no and no[0] == "field" and no[1][0] == "variant" and no[1][2].endswith("Some") and no[1][1][0] == "local"
+            and lo == ("arg", 1)):
+        return False
+    opt = no[1][1][1]
+    ds = du.defs.get(opt, [])
+    if len(ds) != 2 or not all(k == "call" and re.search(r"::get$", x.callee.target_p()) for k, _bi, x in ds):
+        return False
+    if defuse.strip_refs(du.origin(errs[0][1].rv.ops[0])) != ("arg", 1):
+        return False
+    # the Err is built on the None edge of that option, the node on its Some edge
+    def edge(bi, some):
+        for sw, v, _tb in guards.edge_conditions(b, bi):
+            o = du.origin(b.blocks[sw].term.discr)
+            if o == ("disc", ("local", opt)):
+                vals = [a for a, _t in b.blocks[sw].term.arms]
+                is_some = v == 1 or (v == "else" and vals == [0])
+                is_none = v == 0 or (v == "else" and vals == [1])
+                return is_some if some else is_none
+        return False
+    return edge(nodes[0][0], True) and edge(errs[0][0], False)
+
+
 def rule_view(chk, w):
     tree_ty = re.compile(r"^(&(mut )?)?" + re.escape(H) + r"tree::Tree<")
     n = 0
@@ -1234,7 +1314,10 @@ def rule_view(chk, w):
                 m = {n_: defuse.show(cdu.origin(o)) for n_, o in zip(aggs[0].rv.agg[3], aggs[0].rv.ops)}
                 cl_ok = m.get("node", "").lstrip("&*") == "arg1" and m.get("link", "").startswith("*") and \
                     "arg0" in m.get("link", "")
-        if shape and gets == want and not others and cl_ok:
+        if not (shape and cl_ok) and gets == want and _resolve_link_match(b, du):
+            chk.ok("VIEW", "resolve_link: Stored(i) -> stored[i], Generated(i) -> generated[i] (matched: Some(node) => "
+                   "Ok(IndexedNode{node, link}), None => Err(ExpectedInMemory(link)))", sample=True)
+        elif shape and gets == want and not others and cl_ok:
             chk.ok("VIEW", "resolve_link: Stored(i) -> stored[i], Generated(i) -> generated[i]; a "
                    "missing entry is Err(ExpectedInMemory(link))", sample=True)
         else:
@@ -1352,6 +1435,7 @@ def rule_pf(chk, w, guards):
         else:
             chk.ok("PF", "%s::read is in the call closure of the parsing entry points" % v.rsplit("::", 1)[-1])
     for f, s, key in sites:
+        key = panics.resolve_key(REVIEWED, key, s)
         if s["cls"] != "A":
             continue
         auto = panics.auto_discharge(f, s)
